@@ -177,7 +177,8 @@ def run_exec(case, res):
                 res.fail('exec:named_task_handed_on_twice', '%s: %s' % (u, e['seq']))
     # named + running => process killed through the launcher
     for u, phase in sim.must_cancel.items():
-        if phase == 'running' and u not in sim.rm.launcher.cancelled:
+        if phase == 'running' and u not in sim.rm.launcher.cancelled \
+                and not sim.exited_during_own_launch(u):
             pr = sim.proc_of.get(u)
             if pr is not None and not pr.killed:
                 res.fail('exec:named_running_task_not_killed', u)
